@@ -206,6 +206,16 @@ func factsSession() {
 		unrec(g, "acceptNilIsBroken", "Accept not found")
 	}
 	constFact(g, "acceptBacklog", mx, "acceptBacklog")
+	// ---- the receive pipes never hold a writer back in practice: a writer parks (inside the stream's recvM, see
+	// streamBuffer.Write) only while MORE than recvBufferSizeLimit bytes are unread ----
+	constFact(g, "recvBufferSizeLimit", mx, "recvBufferSizeLimit")
+	for _, k := range []struct{ fn, name, buf string }{{"streamBufferedPipe.Write", "pipeWriteProceeds", "p.buf.Len()"}, {"datagramBufferedPipe.Write", "dgPipeWriteProceeds", "d.buf.Len()"}} {
+		if fn := fnOf(mx, k.fn); fn != nil {
+			boolExpr(g, k.name, "(buffered : Int)", mx, ifCond(fn, `buf\.Len\(\)`, `recvBufferSizeLimit`), map[string]string{k.buf: "buffered"})
+		} else {
+			unrec(g, k.name, k.fn+" not found")
+		}
+	}
 	// ---- switchboard.addConn publish order (C01) ----
 	if fn := fnOf(mx, "switchboard.addConn"); fn != nil {
 		evs := events(fn)
